@@ -24,7 +24,7 @@ func init() {
 			"deferred functions) at PRNG-chosen (site, n) pairs - sites drawn uniformly so rare sites are as likely as hot ones; n from {1, 2, middle, last, random}. A fresh engine then opens the " +
 			"directory (must succeed) and its state must equal model(prefix j) for an admissible j (acked <= j <= issued with immediate sync, 0 <= j <= issued otherwise; j = issued after a clean " +
 			"close), units atomic, no key outside the program's key universe. The directory is then continued for 1-2 more cycles (more writes, possibly another kill) and checked against the model " +
-			"re-based on j. distinct = (site, n, sync mode, memtable size, program); non-trivial = the armed kill really happened with >= 1 unit issued",
+			"re-based on j. Every 8th case is an in-process parked-goroutine snapshot run instead: the hook callback parks a maintenance goroutine (background flush, rotation, table write, compaction) or the writer itself at the k-th hit of a chosen site while the other side goes on for a few units, the directory is copied at that instant (every goroutine is parked, waiting or idle - the image a process death leaves), judged by the same prefix oracle, the goroutine released (3 snapshots per case); every 32nd case is the staged active-table-flush schedule; every 8th case a syscall-order trace under strace. distinct = (site, n, sync mode, memtable size, program); non-trivial = the armed kill really happened with >= 1 unit issued",
 		Assumptions: []string{"process death is modelled by SIGKILL (the page cache survives); lost-fsync behaviour is judged by the syscall-order monitor inside this check (strace), not by kills",
 			"a write that returned an error may or may not be present after recovery (both accepted; counted)"},
 		NumCases: func(tier string) int {
